@@ -166,6 +166,7 @@ func generate(r *simrt.Rand, pf *Profile) (Cfg, *Program) {
 			qc.NDelay = pick(r, []int{0, 1, 3})
 			if pf.AdFaults {
 				qc.NDup = pick(r, []int{0, 0, 20})
+				qc.NOther = pick(r, []int{0, 0, 50})
 			}
 		}
 		c.Queues = append(c.Queues, qc)
@@ -483,6 +484,7 @@ func init() {
 			pf.ErrReaderPct = 30
 			pf.WarmPct = 25
 			pf.PreloadPct = 40
+			pf.UseCtxPct = 20 // a live worker context (never cancelled here) switches on the context-aware paths
 			if tier == "thorough" && r.Intn(1000) < 4 {
 				// bursts across the real segment sizes (1024, 1536, ...)
 				pf.SmallChunksPct = 0
@@ -515,6 +517,7 @@ func init() {
 			pf.Releaser = 100
 			pf.ErrReaderPct = 50
 			pf.WarmPct = 25
+			pf.UseCtxPct = 20
 			if r.Chance(25) {
 				// external backend with slow/stalled acknowledgements: a pool goroutine that is
 				// still acknowledging holds its slot, every other job must keep moving
@@ -577,6 +580,7 @@ func init() {
 			pf.Cancellers, pf.CancelOps = [2]int{0, 1}, [2]int{1, 3}
 			pf.Cancel = []wop{{opCloseJob, 6}, {opPurge, 2}}
 			pf.Releaser = 100
+			pf.UseCtxPct = 25
 			if r.Chance(20) {
 				// the barriers on the persistent queue kinds (Purge, Len and dequeue go through the
 				// adapter). Not the distributed kinds: their handle is the shared backend itself,
@@ -634,6 +638,22 @@ func init() {
 				pf.Conc = []int{2, 3, 4}
 				pf.Ctrl = []wop{{opPause, 4}, {opResume, 4}, {opSettle, 3}, {opPauseAndWait, 1}}
 				pf.Releaser = 100
+			case 4:
+				// the usual shutdown: cancel the worker's context, then Stop (the listener's own
+				// stop may be in progress), or two goroutines stopping at once
+				pf.UseCtxPct = 70
+				pf.GatedPct = 40
+				pf.Ctrl = []wop{{opCancelCtx, 3}, {opStop, 4}, {opWaitAndStop, 1}, {opPauseAndWait, 1}, {opRestart, 2}}
+				pf.CtrlOps = [2]int{2, 5}
+				pf.CtrlGapPct = 10
+				pf.Releaser = 100
+				c, p := generate(r, pf)
+				var ops []Op
+				for i, n := 0, 1+r.Intn(2); i < n; i++ {
+					ops = append(ops, Op{K: pickW(r, []wop{{opStop, 4}, {opPauseAndWait, 2}, {opWaitAndStop, 1}})})
+				}
+				p.Tasks = append(p.Tasks, ops)
+				return c, p
 			}
 			return generate(r, pf)
 		},
@@ -746,7 +766,17 @@ func init() {
 			// of that path belongs to the bound as well
 			pf.Cancellers, pf.CancelOps = [2]int{0, 1}, [2]int{1, 4}
 			pf.Cancel = []wop{{opCloseJob, 8}, {opPurge, 1}}
-			return generate(r, pf)
+			c, p := generate(r, pf)
+			if r.Chance(30) {
+				// a second goroutine tuning the pool at the same time: the limit in effect is
+				// always one of the requested values
+				var ops []Op
+				for i, n := 0, 1+r.Intn(3); i < n; i++ {
+					ops = append(ops, Op{K: opTune, A: pick(r, pf.Tunes)})
+				}
+				p.Tasks = append(p.Tasks, ops)
+			}
+			return c, p
 		},
 		NonTrivial: func(ep *Episode) bool { return ep.W.maxInflight >= ep.W.effConc(ep.W.cfg.Conc) || ep.W.maxInflight >= 2 },
 	})
@@ -781,7 +811,7 @@ func init() {
 				if r.Chance(50) {
 					// ... also when the job panics after the worker was paused under it
 					pf.GatedPct = 50
-					pf.Ctrl = []wop{{opPause, 3}, {opResume, 3}, {opPauseAndWait, 1}}
+					pf.Ctrl = []wop{{opPause, 3}, {opResume, 3}, {opPauseAndWait, 1}, {opRestart, 2}}
 					pf.CtrlOps = [2]int{1, 3}
 					pf.Releaser = 100
 				}
